@@ -70,7 +70,8 @@ def clean(traces):
             return [c(v) for v in x]
         if isinstance(x, int) and not isinstance(x, bool) and not -2 ** 31 < x < 2 ** 31:
             # TLC's integers have 32 bits: a number the tool got absurdly wrong is still a wrong number after clamping
-            return 2 ** 31 - 1 if x > 0 else -2 ** 31 + 1
+            # (to +-1e9 rather than to the limit, so that a difference with another number does not overflow either)
+            return 10 ** 9 if x > 0 else -10 ** 9
         return x
     return c(traces)
 
